@@ -39,13 +39,13 @@ import (
 func init() { commands["leak"] = runLeak; commands["leakshard"] = runLeakShard }
 
 type LeakScenario struct {
-	Target string   `json:"t"`      // sup | comp | http | cluster | fsm
-	Caps   []string `json:"caps"`   // sup: capability strings of the mock runnables, "flap", "http"
-	Round  []string `json:"round"`  // operations of one round
-	Rounds int      `json:"rounds"` // how many times the round is repeated
-	End    string   `json:"end"`    // sup: term | int | cancel | shutdown | trig ; others: stop | cancel
-	Tail   []string `json:"tail"`   // subscriptions opened just before the end and cancelled after termination
-	ReloadMs int    `json:"reloadMs"` // sup: how long a mock's Reload() takes
+	Target   string   `json:"t"`        // sup | comp | http | cluster | fsm
+	Caps     []string `json:"caps"`     // sup: capability strings of the mock runnables, "flap", "http"
+	Round    []string `json:"round"`    // operations of one round
+	Rounds   int      `json:"rounds"`   // how many times the round is repeated
+	End      string   `json:"end"`      // sup: term | int | cancel | shutdown | trig ; others: stop | cancel
+	Tail     []string `json:"tail"`     // subscriptions opened just before the end and cancelled after termination
+	ReloadMs int      `json:"reloadMs"` // sup: how long a mock's Reload() takes
 }
 
 var libFrame = regexp.MustCompile(`^github\.com/robbyt/(go-supervisor/(supervisor|runnables|internal)|go-fsm)`)
@@ -169,7 +169,8 @@ func settle(stable int, max time.Duration) []string {
 // not at quiescence (the forwarder's 100 ms grace period after a cancelled subscription; go-fsm's 5 s
 // delivery timeout, during which a transition and everything queued behind it is stalled): the first
 // round waits until no such goroutine is visible, a later round whose count is above the first
-// round's is looked at again for up to 6.5 s, and only what is still there then is counted.
+// round's is looked at again for up to 6.5 s (16 s while something is visibly waiting for a timer), and only
+// what is still there then is counted.
 var leakExcess []string // goroutine list of a sample that exceeded the first round's count
 
 func sample(prev []int) int {
@@ -185,13 +186,17 @@ func sample(prev []int) int {
 		}
 		return false
 	}
-	deadline := time.Now().Add(6500 * time.Millisecond)
+	// (a reload of an httpserver runner under a supervisor can stall for two delivery timeouts in a row)
+	deadline := time.Now().Add(16 * time.Second)
 	for time.Now().Before(deadline) {
 		if len(prev) == 0 && !transient(g) {
 			break
 		}
 		if len(prev) > 0 && len(g) <= prev[0] {
 			break
+		}
+		if len(prev) > 0 && !transient(g) && time.Until(deadline) < 9500*time.Millisecond {
+			break // 6.5 s without anything waiting for a timer: what is there stays there
 		}
 		time.Sleep(40 * time.Millisecond)
 		g = settle(6, 400*time.Millisecond)
@@ -242,7 +247,11 @@ type subs struct {
 	cancels []context.CancelFunc
 }
 
-func (s *subs) add(cf context.CancelFunc) { s.mu.Lock(); s.cancels = append(s.cancels, cf); s.mu.Unlock() }
+func (s *subs) add(cf context.CancelFunc) {
+	s.mu.Lock()
+	s.cancels = append(s.cancels, cf)
+	s.mu.Unlock()
+}
 func (s *subs) cancelAll() {
 	s.mu.Lock()
 	for _, c := range s.cancels {
@@ -452,8 +461,8 @@ func (c *lcChild) Run(ctx context.Context) error {
 	}
 	return nil
 }
-func (c *lcChild) Stop()                    { c.lc.Stop() }
-func (c *lcChild) ReloadWithConfig(v any)   {}
+func (c *lcChild) Stop()                  { c.lc.Stop() }
+func (c *lcChild) ReloadWithConfig(v any) {}
 
 func leakHTTP(sc LeakScenario) leakResult {
 	addrs := []string{freeAddr(), freeAddr()}
@@ -775,9 +784,9 @@ func tameAbandoned(ops []string) []string {
 }
 
 var leakCorpus = []LeakScenario{
-	{Target: "sup", Caps: []string{"0000", "1000"}, Round: []string{"hup"}, Rounds: 3, End: "term"},                  // SIGHUP, nothing reloadable (C18-F1)
+	{Target: "sup", Caps: []string{"0000", "1000"}, Round: []string{"hup"}, Rounds: 3, End: "term"},                       // SIGHUP, nothing reloadable (C18-F1)
 	{Target: "sup", Caps: []string{"0100"}, Round: []string{"hup", "sub"}, Rounds: 3, End: "term", Tail: []string{"hup"}}, // SIGHUP right before shutdown (C18-F2)
-	{Target: "http", Round: []string{"reloadc", "req"}, Rounds: 2, End: "stop", Tail: []string{"suba"}},                // abandoned subscription across Stop (C18-F3)
+	{Target: "http", Round: []string{"reloadc", "req"}, Rounds: 2, End: "stop", Tail: []string{"suba"}},                   // abandoned subscription across Stop (C18-F3)
 	{Target: "fsm", Round: []string{"subd", "flip"}, Rounds: 3, End: "stop", Tail: []string{"suba"}},
 	{Target: "comp", Round: []string{"reloadm", "subd"}, Rounds: 3, End: "stop"},
 	{Target: "cluster", Round: []string{"push", "subd"}, Rounds: 2, End: "stop"},
